@@ -55,6 +55,14 @@ def mat(v):
             from array import array
 
             return array("B", v["arr"])
+        if "bab" in v:  # the octets as a byte-aligned bitarray (exports the buffer protocol like bytes)
+            o = bitarray()
+            o.frombytes(bytes.fromhex(v["bab"]))
+            return o
+        if "npb" in v:  # the octets as a numpy uint8 array
+            import numpy
+
+            return numpy.frombuffer(bytes.fromhex(v["npb"]), dtype=numpy.uint8).copy()
         if "none" in v:
             return None
     if isinstance(v, list):
@@ -294,8 +302,8 @@ def _build_registry():
     E("CRC8.calculate", lambda b: L("etsi.crc.crc8:CRC8").calculate(b), "bits:28|36|0-80")
     E("CRC8.check", lambda b, c: L("etsi.crc.crc8:CRC8").check(b, c), "bits:28|36", "int:0:255")
     E("CRC9.calculate", lambda b, m: L("etsi.crc.crc9:CRC9").calculate(b, m), "bits:80-200", "mask")
-    E("CRC9.calculate_from_parts", lambda d, s, m, c: L("etsi.crc.crc9:CRC9").calculate_from_parts(data=d, serial_number=s, mask=m, crc32=c), "bytes:6-22", "int:0:127", "mask", "crc32opt")
-    E("CRC9.check", lambda d, s, c9, m: L("etsi.crc.crc9:CRC9").check(d, s, c9, m), "bytes:6-22", "int:0:127", "int:0:511", "mask")
+    E("CRC9.calculate_from_parts", lambda d, s, m, c: L("etsi.crc.crc9:CRC9").calculate_from_parts(data=d, serial_number=s, mask=m, crc32=c), "bytesm:6-22", "int:0:127", "mask", "crc32opt")
+    E("CRC9.check", lambda d, s, c9, m: L("etsi.crc.crc9:CRC9").check(d, s, c9, m), "bytesm:6-22", "int:0:127", "int:0:511", "mask")
     E("CRC16.calculate", lambda d, m: L("etsi.crc.crc16:CRC16").calculate(d, m), "bytesm:10|9|1-30", "mask")
     E("CRC16.check", lambda d, c, m: L("etsi.crc.crc16:CRC16").check(d, c, m), "bytesm:10", "int:0:65535", "mask")
     E("CRC32.calculate", lambda d: L("etsi.crc.crc32:CRC32").calculate(d), "bytesm:0-64")
@@ -576,8 +584,21 @@ class ArgGen:
             return "1" * n
         return "".join(r.choice("01") for _ in range(n))
 
+    def burst_error(self, n):
+        """an error burst on the channel: a contiguous run of inverted bits, from a couple of bits up to the whole word"""
+        r = self.r
+        ln = r.choice([2, 3, 8, 16, n // 2, n, n])
+        ln = max(1, min(n, ln))
+        st = r.randrange(n - ln + 1)
+        return st, ln
+
     def flip(self, s, k):
         s = list(s)
+        if k and s and self.r.random() < 0.15:
+            st, ln = self.burst_error(len(s))
+            for i in range(st, st + ln):
+                s[i] = "1" if s[i] == "0" else "0"
+            return "".join(s)
         for _ in range(k):
             if s:
                 i = self.r.randrange(len(s))
@@ -586,6 +607,11 @@ class ArgGen:
 
     def flip_hex(self, h, k):
         b = bytearray.fromhex(h)
+        if k and b and self.r.random() < 0.15:
+            st, ln = self.burst_error(len(b) * 8)
+            for i in range(st, st + ln):
+                b[i // 8] ^= 0x80 >> (i % 8)
+            return b.hex()
         for _ in range(k):
             if b:
                 i = self.r.randrange(len(b) * 8)
@@ -597,6 +623,18 @@ class ArgGen:
         if not c or self.r.random() < 0.08:
             c = self.vec
         return self.flip_hex(self.r.choice(c), self.r.choice([0, 0, 0, 1, 2]))
+
+    def args(self, specs):
+        """arguments for one call; now and then octets travel in another object exporting the buffer protocol (what the bytes-typed
+        parameters accept today: the oracles are differential, so a container the library refuses simply fails the same way twice)"""
+        out = [self.gen(sp) for sp in specs]
+        r = self.r
+        for i, v in enumerate(out):
+            if isinstance(v, dict) and set(v) == {"b"} and r.random() < 0.06:
+                h = v["b"]
+                # (not a bitarray: entry points that slice their octets would read the undefined pad bits of sub-octet bitarray slices)
+                out[i] = r.choice([{"b": h, "mv": 1}, {"bya": h}, {"npb": h}, {"arr": list(bytes.fromhex(h))}])
+        return out
 
     def gen(self, spec):
         from bitarray import bitarray
@@ -619,6 +657,8 @@ class ArgGen:
                 return {"bya": h}
             if kind == "bytesm" and r.random() < 0.1:
                 return {"b": h, "mv": 1}
+            if kind == "bytesm" and r.random() < 0.08:
+                return {"bab": h}  # checksum inputs are consumed whole: an octet-aligned bitarray exports the same octets
             return {"b": h}
         if kind == "int":
             lo, hi = rest.split(":")
@@ -777,7 +817,7 @@ def gen_cotenant(r, n=None, prefer=None):
     for _ in range(n if n is not None else r.choice([3, 8, 20])):
         name = r.choice(pref) if pref and r.random() < 0.7 else r.choice(names)
         try:
-            ops.append({"entry": name, "args": [g.gen(sp) for sp in ENTRIES[name]["specs"]]})
+            ops.append({"entry": name, "args": g.args(ENTRIES[name]["specs"])})
         except Exception:
             pass
     return ops
@@ -976,7 +1016,7 @@ class C19(Check):
             else:
                 name = w.choice(subset)
                 try:
-                    args = [g.gen(sp) for sp in ENTRIES[name]["specs"]]
+                    args = g.args(ENTRIES[name]["specs"])
                 except Exception:
                     continue
                 pool.append((name, args))
